@@ -53,6 +53,10 @@ def run(pid, tier, replay):
     work = tempfile.mkdtemp(prefix="vc20_")
     cov = {}
     try:
+        if replay and '"sc":' in open(replay).readline():
+            from props import client
+            client.validate(pid, replay, v, "replay")
+            return v.finish()
         if replay:
             tc = vlib.validate_trace_parallel("SegQueueTrace", "Trace_queue.cfg", replay, pid, nchunks=1, accept="hw")
             for inv, rp, d in tc.failures:
@@ -114,6 +118,12 @@ def run(pid, tier, replay):
         cr, _ = vlib.validate_trace("SegQueueTrace", "Trace_queue.cfg", can)
         if cr.kind != "invariant":
             raise vlib.Inconclusive("canary trace was not rejected")
+
+        # 6. end to end: the real Client against the stub server at several server / application speeds (look-ahead bound)
+        import random
+        from props import client
+        e2e = client.e2e_lookahead(binary, tier, v, work, random.Random(vlib.seed() * 17 + 20))
+        cov.update(e2e)
 
         with open(tr) as f:
             head = [json.loads(next(f)) for _ in range(9)]
